@@ -1,0 +1,179 @@
+//go:build verif
+
+package sniproxy
+
+import (
+	"context"
+	"errors"
+	"io"
+	"net"
+	"time"
+
+	"github.com/gorilla/websocket"
+)
+
+// This file is only built with the "verif" tag. It lets an external
+// verification harness run the RPC client side (endpointClient / transport)
+// over a websocket that the harness supplies, issue raw calls, and sever
+// connections. It adds no behaviour to the package.
+
+// VerifClient is an endpointClient whose serve loop runs in the background.
+type VerifClient struct {
+	ep       *endpointClient
+	served   chan struct{}
+	serveErr error
+}
+
+// VerifNewClient builds an endpointClient over conn and starts serving.
+func VerifNewClient(conn *websocket.Conn, opt *Options) *VerifClient {
+	if opt == nil {
+		opt = &Options{}
+	}
+	c := &VerifClient{
+		ep:     newEndpointClient(conn, opt),
+		served: make(chan struct{}),
+	}
+	go func() {
+		c.serveErr = c.ep.serve()
+		close(c.served)
+	}()
+	return c
+}
+
+// VerifWrapClient wraps an endpointClient that something else serves.
+func verifWrapClient(ep *endpointClient) *VerifClient {
+	return &VerifClient{ep: ep}
+}
+
+// ServeDone is the transport's serveDone channel.
+func (c *VerifClient) ServeDone() <-chan struct{} { return c.ep.tr.serveDone }
+
+// Served is closed when serve() has returned (only for VerifNewClient).
+func (c *VerifClient) Served() <-chan struct{} { return c.served }
+
+// ServeErr is what serve() returned; valid after Served() is closed.
+func (c *VerifClient) ServeErr() error { return c.serveErr }
+
+// Call issues one raw call: request message reqName built from req (""
+// for no body), response decoded into a fresh respName ("" for none; bufCap
+// is the caller's buffer for a read response).
+func (c *VerifClient) Call(
+	ctx context.Context, typ byte, reqName string, req []VerifField,
+	respName string, bufCap int,
+) ([]VerifField, error) {
+	var reqM encoderTo
+	if reqName != "" {
+		m := verifNewMessage(reqName, req, 0)
+		if m == nil {
+			return nil, errors.New("verif: unknown request message")
+		}
+		reqM = m
+	}
+	var respM decoderFrom
+	var respMsg message
+	if respName != "" {
+		respMsg = verifNewMessage(respName, nil, bufCap)
+		if respMsg == nil {
+			return nil, errors.New("verif: unknown response message")
+		}
+		respM = respMsg
+	}
+	if err := c.ep.tr.call(ctx, typ, reqM, respM); err != nil {
+		return nil, err
+	}
+	if respMsg == nil {
+		return nil, nil
+	}
+	_, fs := verifFieldsOf(respMsg)
+	return fs, nil
+}
+
+// Hello is endpointClient.Hello.
+func (c *VerifClient) Hello(ctx context.Context, msg string) (string, error) {
+	return c.ep.Hello(ctx, msg)
+}
+
+// Dial is endpointClient.Dial.
+func (c *VerifClient) Dial(ctx context.Context, addr string) (net.Conn, error) {
+	return c.ep.Dial(ctx, addr)
+}
+
+// Tunnel returns the tunnel connection object for a session id.
+func (c *VerifClient) Tunnel(session uint64) net.Conn {
+	return newTunnel(c.ep.tr, session)
+}
+
+// Shutdown is transport.shutdown.
+func (c *VerifClient) Shutdown(ctx context.Context) error {
+	return c.ep.tr.shutdown(ctx)
+}
+
+// Close is endpointClient.Close.
+func (c *VerifClient) Close() error { return c.ep.Close() }
+
+// BreakWrites makes every later write on the control websocket fail.
+func (c *VerifClient) BreakWrites() {
+	c.ep.conn.SetWriteDeadline(time.Unix(1, 0))
+}
+
+// Sever closes the network connection under the control websocket without a
+// websocket close handshake.
+func (c *VerifClient) Sever() { c.ep.conn.UnderlyingConn().Close() }
+
+// QueuedCalls is the number of calls accepted but not yet seen by serve.
+func (c *VerifClient) QueuedCalls() int { return len(c.ep.tr.calls) }
+
+// Same reports whether two handles are the same endpoint client.
+func (c *VerifClient) Same(d *VerifClient) bool {
+	return c != nil && d != nil && c.ep == d.ep
+}
+
+// VerifCallErrKind maps an error returned by a call to a small enum.
+func VerifCallErrKind(err error) string {
+	switch {
+	case err == nil:
+		return "ok"
+	case err == errAlreadyShutdown:
+		return "alreadyshutdown"
+	case err == errTooLong:
+		return "toolong"
+	case err == io.ErrUnexpectedEOF:
+		return "eof"
+	case err == errLengthOverflow:
+		return "lenoverflow"
+	case err == io.EOF:
+		return "ioeof"
+	case errors.Is(err, context.DeadlineExceeded),
+		errors.Is(err, context.Canceled):
+		return "ctx"
+	}
+	if _, ok := err.(*remoteErr); ok {
+		return "remote"
+	}
+	var ne net.Error
+	if errors.As(err, &ne) && ne.Timeout() {
+		return "send"
+	}
+	return "other:" + err.Error()
+}
+
+// VerifSetEndpointCallback registers f to be called with every endpoint
+// client that connects to the server (before OnConnect).
+func (s *Server) VerifSetEndpointCallback(f func(name string, c *VerifClient)) {
+	s.setEndpointCallback(func(u string, ep *endpointClient) {
+		f(u, verifWrapClient(ep))
+	})
+}
+
+// VerifLookup returns the endpoint client registered under name, or nil.
+func (s *Server) VerifLookup(name string) *VerifClient {
+	ep, err := s.endpoint(name)
+	if err != nil {
+		return nil
+	}
+	return verifWrapClient(ep)
+}
+
+// VerifSever closes the network connection under the endpoint's control
+// websocket (endpoint side) without a close handshake.
+func (p *Endpoint) VerifSever() { p.conn.UnderlyingConn().Close() }
